@@ -213,6 +213,25 @@ def run(ctx):
     n = ctx.n(250, 5000)
     cases = P.build_cases(ctx, n, gen_kwargs=dict(size=6), nsub_choices=(1, 1, 2), compressed=False,
                           versions=(33, 33, 25), editions=(4, 4, 3), shared=False)
+    # associated fields, nested: an inner 204 span inside an outer one, elements after the inner cancellation
+    import tmplgen
+    rng = ctx.rng
+    pl = tmplgen.pools(33)
+    for k in range(ctx.n(24, 300)):
+        el = lambda: rng.choice(pl.numeric + pl.codeflag)
+        a, b2 = rng.choice([1, 2, 4, 8]), rng.choice([2, 3, 5])
+        inner = [204000 + b2, 31021, el()] + ([el()] if rng.random() < 0.4 else []) + [204000]
+        shape = k % 4
+        if shape == 0:
+            ids = [204000 + a, 31021, el()] + inner + [el(), 204000, el()]
+        elif shape == 1:
+            ids = [204000 + a, 31021] + inner + [el(), el(), 204000]
+        elif shape == 2:
+            ids = [204000 + a, 31021, el()] + inner + [102002, el(), el(), 204000, el()]
+        else:
+            ids = [el(), 204000 + a, 31021, el()] + inner + [101000, 31001, el(), 204000]
+        cases.append({'ids': ids, 'version': 33, 'edition': 4, 'nsub': rng.choice([1, 2]), 'compressed': False, 'forced': '-',
+                      'seed': rng.randrange(1, 2 ** 32), 'maxrep': 3, 'features': {'nested-204-then-outer': 1}, 'shared': False})
     P.attach_templates(cases)
     P.run_gen(cases)
     P.run_encode(cases)
